@@ -95,7 +95,7 @@ def main(chk):
     rnd = random.Random(chk.seed)
     quick = chk.tier == 'quick'
     # B3: the transcription of the code refines the abstract store for every script of the family
-    r = tlc.run('VTLSchedule', 'VTLSchedule_quick.cfg' if quick else 'VTLSchedule_thorough.cfg', workers=14, timeout=3000)
+    r = tlc.run('VTLSchedule', 'VTLSchedule_quick.cfg' if quick else 'VTLSchedule_thorough.cfg', workers=14, timeout=14000)
     if r.violated:
         chk.violation('model %s' % r.violated, 'TLC: %s violated by the transcription of _ds_usage_analysis/execute_queries' % r.violated,
                       r.output[-4000:])
